@@ -14,7 +14,7 @@ CONFIG = {
     # schedules plus once as the lock-step single-worker reference.  The harness (re)builds the real
     # binary from the repo's current tree: cargo build -p ddnnife_bin --features verif
     # --manifest-path $VERIF_REPO/Cargo.toml (default /repo) --target-dir .cache/target-bin.
-    "runs": props.simple("c14", 60, 400),
+    "runs": props.simple("c14", 120, 500),
     "status": "full (every interleaving of the transition system StreamTS of init_stream, any worker count, any input, "
               "any answer function): C14_inv, C14_counts, C14_order (both versions of the main thread), "
               "C14_all_answered + C14_accepted + C14_same_as_single_worker (main thread with the flush of fix F3), "
